@@ -456,6 +456,10 @@ def clauses_c05(ex, obs) -> list:
                         out.append(("lookup-yields-nothing", f"via-{how}:{role}:by-name", {"uid": uid, "name": nm}))
                 if uid in obs["listed"][wsn]:
                     out.append(("gone-from-listings", f"via-{how}:{role}", {"uid": uid}))
+    # (0) a removal request that is not about a protected entity is carried out, not refused
+    for pos, op, msg in ex.unexpected:
+        if op[0] in ("rm_ws", "rm_par", "rm_par_all", "pg_del", "pg_rm"):
+            out.append(("removal-is-carried-out", f"{op[0]}:{msg}", {"op": op, "error": msg, "results": ex.results[-5:]}))
     # (4) later operations on the survivors succeed
     first_removal = min((ev[3] for ev in ex.events if ev[0] == "removed"), default=None)
     for pos, op, msg in ex.unexpected:
